@@ -56,6 +56,12 @@ impl MemcacheTcpServer {
         }
     }
 
+    /// free connection slots, for the verification harness
+    #[cfg(memcrs_verif)]
+    pub fn verif_available_permits(&self) -> usize {
+        self.limit_connections.available_permits()
+    }
+
     pub async fn run<A: ToSocketAddrs>(&mut self, addr: A) -> io::Result<()> {
         let listener = self.get_tcp_listener(addr)?;
         loop {
